@@ -37,7 +37,8 @@ Step(c) ==
        [] e.op = "rewrite" -> disk[e.m] # 0 /\ disk' = [disk EXCEPT ![e.m] = e.ver] /\ UNCHANGED bad
        [] e.op = "touch" -> disk[e.m] # 0 /\ UNCHANGED <<disk, bad>>
        [] e.op = "request" ->
-            /\ AsSet(e.fm) = Ideal(disk)                    \* reference validation
+            /\ (Cases[c].cyclic \/ AsSet(e.fm) = Ideal(disk))     \* reference validation (histories with an import cycle are outside
+                                                                  \* the mechanism model: there the fresh project is the only reference)
             /\ LET ok == e.long = e.fresh /\ AsSet(e.lm) = AsSet(e.fm) IN
                /\ bad' = (bad \/ ~ok)
                /\ IF ok THEN TRUE ELSE PrintT(ToJson(<<"VFAIL", "C09", Cases[c].id, "long#fresh", l>>))
